@@ -355,12 +355,10 @@ def iter_elems(sx, v, st, node):
         return ("conc", [Val(it, t.field(v.term, i)) for i, it in enumerate(t.items)])
     if isinstance(t, V._Str):
         # iterate characters: list of 1-char strings
+        # the list of characters is *defined* from the string (same string term => same list term)
         lt = V.List(V.Str)
-        r = lt.fresh(fresh_name("chars"))
-        i = z3.Int(fresh_name("chi"))
-        st.assume(lt.n(r.term) == z3.Length(v.term))
-        st.assume(z3.ForAll([i], z3.Implies(z3.And(i >= 0, i < lt.n(r.term)), lt.at(r.term, i) == z3.SubString(v.term, i, 1))))
-        return ("list", r)
+        i = z3.Int("chi")
+        return ("list", Val(lt, lt.mk(z3.Lambda([i], z3.SubString(v.term, i, 1)), z3.Length(v.term))))
     if isinstance(t, V._Json):
         return ("json", v)
     if isinstance(t, V.Set):
@@ -729,18 +727,37 @@ def mutable_method(sx, ref, attr, args, kwargs, st, node):
             v = sx.coerce(args[0], t.elem, st)
             st.setcell(ref.cell, Val(t, z3.Store(c.term, v.term, False)))
             return ok(st, NONE)
+        if attr in ("intersection_update", "difference_update"):
+            other = sx.deref(args[0], st)
+            if isinstance(other, Val) and other.ty == t:
+                x = z3.Const(fresh_name("siu"), t.elem.sort())
+                keep = z3.Select(other.term, x) if attr == "intersection_update" else z3.Not(z3.Select(other.term, x))
+                st.setcell(ref.cell, Val(t, z3.Lambda([x], z3.And(z3.Select(c.term, x), keep))))
+                return ok(st, NONE)
+            raise Unsupported("set.%s with %r" % (attr, other), node)
         if attr == "update":
-            kind, payload = iter_elems(sx, args[0], st, node)[:2]
             other = sx.deref(args[0], st)
             if isinstance(other, Val) and other.ty == t:
                 x = z3.Const(fresh_name("su"), t.elem.sort())
-                st.setcell(ref.cell, Val(t, z3.Lambda([x], z3.Or(z3.Select(c.term, x), z3.Select(other.term, x)))))
+                newt = z3.Lambda([x], z3.Or(z3.Select(c.term, x), z3.Select(other.term, x)))
+                if not isinstance(t.elem, V._Bool):
+                    ne = sx.set_ne_fun(t)
+                    st.assume(ne(newt) == z3.Or(sx.set_nonempty(c, st), sx.set_nonempty(other, st)))
+                st.setcell(ref.cell, Val(t, newt))
                 return ok(st, NONE)
+            kind, payload = iter_elems(sx, args[0], st, node)[:2]
             if kind == "list" and payload.ty.elem == t.elem:
                 lt = payload.ty
                 x = z3.Const(fresh_name("su"), t.elem.sort())
                 i = z3.Int(fresh_name("sui"))
-                st.setcell(ref.cell, Val(t, z3.Lambda([x], z3.Or(z3.Select(c.term, x), z3.Exists([i], z3.And(i >= 0, i < lt.n(payload.term), lt.at(payload.term, i) == x))))))
+                newt = z3.Lambda([x], z3.Or(z3.Select(c.term, x), z3.Exists([i], z3.And(i >= 0, i < lt.n(payload.term), lt.at(payload.term, i) == x))))
+                if not isinstance(t.elem, V._Bool):
+                    st.assume(sx.set_ne_fun(t)(newt) == z3.Or(sx.set_nonempty(c, st), lt.n(payload.term) > 0))
+                st.setcell(ref.cell, Val(t, newt))
+                return ok(st, NONE)
+            if kind == "conc":
+                for pv in payload:
+                    mutable_method(sx, ref, "add", [pv], {}, st, node)
                 return ok(st, NONE)
             raise Unsupported("set.update with %s" % kind, node)
         return call_method(sx, c, attr, args, kwargs, st, node)
@@ -778,10 +795,8 @@ def str_method(sx, obj, attr, args, kwargs, st, node):
     t = obj.ty
     s = obj.term
     if attr == "lower":
-        r = sx.fresh(t, "lower", st)
         f = sx.reg.ufun("str_lower", [z3.StringSort()], z3.StringSort())
-        st.assume(r.term == f(s))
-        st.assume(z3.Length(r.term) >= 0)
+        r = Val(t, f(s))
         # facts: lower() is the identity on strings without cased characters we care about; idempotent
         st.assume(f(r.term) == r.term)
         st.assume(z3.Implies(z3.InRe(s, z3.Star(z3.Union(z3.Range("0", "9"), z3.Range("a", "z"), z3.Range(" ", "@")))), r.term == s))
@@ -1062,11 +1077,19 @@ def comprehension(sx, node, st, kind):
         if isinstance(elt, (Ref, Func, Conc)) or elt.ty is None:
             raise Unsupported("comprehension element %r" % (elt,), node)
         rt = V.List(elt.ty)
-        cname = fresh_name("cntf")
-        cntf = z3.RecFunction(cname, z3.IntSort(), z3.IntSort())
-        kk = z3.Int(fresh_name("ck"))
-        cond_k1 = z3.substitute(cond, (i, kk - 1))
-        z3.RecAddDefinition(cntf, [kk], z3.If(kk <= 0, 0, cntf(kk - 1) + z3.If(cond_k1, 1, 0)))
+        # one counting function per (filter text, source list): the same comprehension written in a
+        # contract and in the code denotes the same function
+        ckey = (ast.unparse(gen.target), " and ".join(ast.unparse(c) for c in gen.ifs), src.term.sexpr())
+        cache = sx.reg.__dict__.setdefault("_cntf_cache", {})
+        if ckey in cache:
+            cntf, i0 = cache[ckey]
+        else:
+            cname = fresh_name("cntf")
+            cntf = z3.RecFunction(cname, z3.IntSort(), z3.IntSort())
+            kk = z3.Int(fresh_name("ck"))
+            cond_k1 = z3.substitute(cond, (i, kk - 1))
+            z3.RecAddDefinition(cntf, [kk], z3.If(kk <= 0, 0, cntf(kk - 1) + z3.If(cond_k1, 1, 0)))
+            cache[ckey] = (cntf, i)
         res = rt.fresh(fresh_name("comp"))
         s.assume(rt.n(res.term) == cntf(n))
         s.assume(rt.n(res.term) >= 0)
@@ -1086,6 +1109,53 @@ def comprehension(sx, node, st, kind):
         else:
             outs.append(R(s, Ref(rt, s.alloc(res))))
     return outs
+
+
+def any_all_comprehension(sx, node, st):
+    """any(e for x in xs if c) / all(...) over a symbolic list -> one quantifier (no intermediate list)"""
+    is_all = node.func.id == "all"
+    comp = node.args[0]
+    gen = comp.generators[0]
+    rs = sx.ev(gen.iter, st)
+    if len(rs) != 1 or rs[0].exc is not None:
+        return None
+    s = rs[0].st
+    src = sx.deref(rs[0].val, s)
+    if (isinstance(src, Val) and isinstance(src.ty, V._Str) and not gen.ifs and isinstance(gen.target, ast.Name)
+            and isinstance(comp.elt, ast.Compare) and len(comp.elt.ops) == 1
+            and isinstance(comp.elt.left, ast.Name) and comp.elt.left.id == gen.target.id
+            and isinstance(comp.elt.comparators[0], ast.Constant) and isinstance(comp.elt.comparators[0].value, str)
+            and comp.elt.comparators[0].value):
+        # character-class test over the characters of a string with a literal class:
+        #   all(c in LIT for c in s)  ==  not any(c not in LIT for c in s)  ==  s in (c1|c2|...)*
+        lit = comp.elt.comparators[0].value
+        cls = z3.Star(z3.Union(*[z3.Re(z3.StringVal(ch)) for ch in sorted(set(lit))])) if len(set(lit)) > 1 else z3.Star(z3.Re(z3.StringVal(lit[0])))
+        inside = z3.InRe(src.term, cls)
+        op = comp.elt.ops[0]
+        if is_all and isinstance(op, ast.In):
+            return [R(s, Val(V.Bool, inside))]
+        if not is_all and isinstance(op, ast.NotIn):
+            return [R(s, Val(V.Bool, z3.Not(inside)))]
+    kind, payload = iter_elems(sx, rs[0].val, s, node)[:2]
+    if kind != "list":
+        return None
+    t = payload.ty
+    i = z3.Int(fresh_name("qi"))
+    s.frames.append({})
+    saved = sx.spec_mode
+    sx.spec_mode += 1
+    try:
+        ao = sx.assign(gen.target, Val(t.elem, t.at(payload.term, i)), s)
+        if len(ao) != 1 or ao[0].kind != "normal":
+            raise Unsupported("comprehension target forks", node)
+        conds = [sx.truthy(sx.ev1(c, s), s) for c in gen.ifs]
+        body = sx.truthy(sx.ev1(comp.elt, s), s)
+    finally:
+        sx.spec_mode = saved
+        s.frames.pop()
+    rng = z3.And(i >= 0, i < t.n(payload.term), *conds)
+    q = z3.ForAll([i], z3.Implies(rng, body)) if is_all else z3.Exists([i], z3.And(rng, body))
+    return [R(s, Val(V.Bool, q))]
 
 
 # ---------------------------------------------------------------- for loops
